@@ -108,6 +108,21 @@ def run(pid, tier, seed, replay):
                 out.violation(T.replay_of(pid, r, {"case": case, "step": step, "detail": detail},
                                           {"broken": "correspondence connection model/implementation",
                                            "theorems_no_longer_about_the_code": pf["theorems"]}), nofail=not verdicts)
+        if pid == "C08" and not replay:
+            # isolation against a concurrent client, forced through the schedule points of tx.go: another connection's SET is run
+            # between the two queued INCRs of an EXEC
+            rc, o = C.sh([C.VH, "execiso"], env=C.go_env(), timeout=60)
+            line = next((l for l in o.splitlines() if l.startswith("EXECISO")), "")
+            f = dict(x.split("=", 1) for x in line.split()[1:] if "=" in x)
+            stats["execiso"] = line
+            if f.get("a") == "A2_I1_I101":
+                v = {"signature": "EXEC/not-isolated", "text": "MULTI ; INCR x ; INCR x ; EXEC replied [1, 101]: another connection's SET x 100 ran between the two queued commands (" + line + ")"}
+                if v["signature"] in known:
+                    confirmed.setdefault(v["signature"], v)
+                else:
+                    out.violation({"property": pid, "signature": v["signature"], "what": v["text"], "replay_cmd": ".cache/bin/vh execiso"})
+            elif not line or f.get("a") in (None, "TIMEOUT"):
+                out.violation({"property": pid, "broken": "vh execiso produced no verdict", "detail": o[-500:]}, nofail=True)
         for sig in sorted(confirmed):
             out.known_confirmed.append(known[sig])
         cov["evaluations"] = stats["steps_vs_model"]
